@@ -68,7 +68,18 @@ impl FixtureDatabase {
                         return true;
                     }
                 }
+                Stmt::AsyncFor(for_stmt) => {
+                    if self.contains_yield(&for_stmt.body) || self.contains_yield(&for_stmt.orelse)
+                    {
+                        return true;
+                    }
+                }
                 Stmt::With(with_stmt) => {
+                    if self.contains_yield(&with_stmt.body) {
+                        return true;
+                    }
+                }
+                Stmt::AsyncWith(with_stmt) => {
                     if self.contains_yield(&with_stmt.body) {
                         return true;
                     }
@@ -77,7 +88,17 @@ impl FixtureDatabase {
                     if self.contains_yield(&try_stmt.body)
                         || self.contains_yield(&try_stmt.orelse)
                         || self.contains_yield(&try_stmt.finalbody)
+                        || try_stmt.handlers.iter().any(|handler| {
+                            let rustpython_parser::ast::ExceptHandler::ExceptHandler(h) = handler;
+                            self.contains_yield(&h.body)
+                        })
                     {
+                        return true;
+                    }
+                }
+                // `value = yield resource` (the fixture receives what the test sends back)
+                Stmt::Assign(assign) => {
+                    if let Expr::Yield(_) | Expr::YieldFrom(_) = &*assign.value {
                         return true;
                     }
                 }
